@@ -53,6 +53,10 @@ class An:
         while True:
             k = e[0]
             if k == 'call':
+                # adaptors that hand the success value on unchanged: `open(p).map_err(f)?` is the file `open` returned
+                if e[2] and strip_generics(e[1]) in self.OK_PRESERVING:
+                    e = e[2][0]
+                    continue
                 return e
             if k in ('field', 'variant', 'index', 'slice', 'cast', 'len'):
                 e = e[1]
@@ -62,6 +66,8 @@ class An:
     def rooted_at(self, e, block):
         c = self.root_call(e)
         return c is not None and c[3] == block
+
+    OK_PRESERVING = ('core::result::Result::map_err', 'core::result::Result::inspect', 'core::result::Result::inspect_err')
 
     ERR_PRESERVING = ('core::result::Result::map', 'core::result::Result::map_err', 'core::result::Result::inspect',
                       'core::result::Result::inspect_err', 'core::result::Result::and_then')
